@@ -7,6 +7,7 @@ let () =
   | _ :: "arena" :: _ -> R_arena.run ()
   | _ :: "minblock" :: _ -> R_minblock.run ()
   | _ :: "lowlevel" :: _ -> R_lowlevel.run ()
+  | _ :: "leak" :: "global" :: _ -> R_leak.run_global ()
   | _ :: "leak" :: _ -> R_leak.run ()
   | _ :: "joint" :: _ -> R_joint.run ()
   | _ :: "exc" :: _ -> R_exc.run ()
